@@ -12,7 +12,8 @@ ID = "C06"
 COQ_DIR = "C06"
 RUN_MOD = "C06.Run"
 MODEL_TARGETS = ["C06/Run.vo"]
-PROOF_TARGETS = ["C06/Lemmas.vo", "C06/Inv.vo", "C06/Spec.vo"]
+PROOF_TARGETS = ["C06/Lemmas.vo", "C06/Inv.vo", "C06/Spec.vo", "C06/Inv2.vo", "C06/Inv3.vo", "C06/Inv4.vo",
+                 "C06/Attr.vo", "C06/Window.vo"]
 PROPS = ["C06/Props.v"]
 ALLOWED_AXIOMS = []
 IMPL_TIMEOUT = 20.0
